@@ -2,6 +2,8 @@
 import DriverOps.Base
 import SparseV.Model.Validate
 import SparseV.Model.Loops
+import SparseV.Model.MaskCost
+import SparseV.Generated.MaskHeuristic
 open Lean SparseV
 
 namespace DriverOps
@@ -44,6 +46,18 @@ def c18 (op : String) (a : Array Json) : R (Option Json) := do
     let n ← jNat (← arg a 1); let ind ← jList jInt (← arg a 2); let ptr ← jList jInt (← arg a 3)
     let sh ← jList jInt (← arg a 4); let c ← jOpt (jList jInt) (← arg a 5)
     pure (some (okJ (Json.bool (decide (Validate.gcxsContract n ind ptr sh c)))))
+  | "heuristic_take" =>
+    -- [op, S, pairs, matches]: does the loop of _compute_mask go on with pairs?  The guard as read from the source, in IEEE double
+    let sN ← jNat (← arg a 1); let p ← jNat (← arg a 2); let m ← jNat (← arg a 3)
+    pure (some (okJ (Json.bool (MaskCost.takePairsF Gen.maskHeuristicLhs Gen.maskHeuristicRhs sN p m))))
+  | "mask_iterations" =>
+    -- [op, nnz, [[L, p', M'], ...]]: iterations of the pair search and number of axes handled with pairs, starting from one pair over all entries
+    let n ← jNat (← arg a 1)
+    let st ← jList (fun j => do let l ← jList jNat j; pure ({ L := l.getD 0 0, p' := l.getD 1 0, M' := l.getD 2 0 } : MaskCost.AxisStep)) (← arg a 2)
+    let take := fun sN p m =>
+      -- n_current_slices is recomputed from its definition as read (L * pairs + 2): a changed definition changes the decision
+      MaskCost.takePairsF Gen.maskHeuristicLhs Gen.maskHeuristicRhs sN p m
+    pure (some (okJ (Json.mkObj [("pair", natJ (MaskCost.pairIterations take 1 n st)), ("axes", natJ (MaskCost.pairAxes take 1 n st))])))
   | "v_caxes" =>
     let nd ← jNat (← arg a 1); let c ← jOpt (jList jInt) (← arg a 2)
     pure (some (exceptJ unitJ (Validate.checkCompressedAxes nd c)))
